@@ -43,6 +43,7 @@ void vp_tags_init (void) {
 #define V_H4         0x20000u /* C02 H4 */
 #define V_LONG_KEEP  0x40000u /* C02/C14 L4 */
 #define V_ENQ_ALLF   0x80000u /* C02/C06 */
+#define V_REL_NOWAKE 0x100000u /* C02/C06 */
 #define V_QUEUED     0x8000u  /* C03: acquisition by a queued waiter that has not observed its wake-up with acquire order */
 
 /* Decide which typed transition (old -> new) is for a thread with ghost *g,
@@ -138,6 +139,11 @@ unsigned vp_mu_step (uint32_t old, uint32_t new_, struct vp_mu_ghost *g, int ord
 	   reader's release would otherwise skip the wake-up */
 	if (acq_spin && !acq_lock && !g->observer && !g->set_desig && !g->scan_ctx && !((old & MU_DESIG_WAKER) == 0 && (new_ & MU_DESIG_WAKER) != 0) &&
 	    (new_ & MU_WAITING) != 0 && (new_ & MU_ALL_FALSE) != 0) viol |= V_ENQ_ALLF;
+	/* C02/C06: a release that leaves the mutex FREE while threads are queued and nobody is designated to wake them must take the wake-up
+	   path, i.e. take the queue spinlock in that step; the only licence to skip it is MU_ALL_FALSE, for a reader's release and for
+	   nsync_mu_unlock_without_wakeup */
+	if (rel_lock && g->hold == VP_NONE && nL == 0 && !had_spin && !acq_spin && (old & MU_WAITING) != 0 && (old & MU_DESIG_WAKER) == 0 &&
+	    !((old & MU_ALL_FALSE) != 0 && (old_hold == VP_READER || g->no_wakeup_ctx))) viol |= V_REL_NOWAKE;
 	/* enqueue bookkeeping (C14 L1 is asserted by the harness of lock_slow from these) */
 	if (acq_spin && old_hold == VP_NONE && !acq_lock) {
 		/* C14 L1: a waiter that was woken LONG_WAIT_THRESHOLD times and lost sets MU_LONG_WAIT when it re-enqueues */
@@ -202,6 +208,7 @@ static void mu_check (unsigned viol) {
 	VP_ASSERT (!(viol & V_ALLFALSE_W), "C06: a writer's release (nsync_mu_unlock) clears MU_ALL_FALSE, because its critical section may have made conditions true");
 	VP_ASSERT (!(viol & V_LONG_KEEP), "C02/C14: the thread that raised MU_LONG_WAIT clears it in the step in which it acquires (otherwise no thread that has not waited can ever acquire the free mutex)");
 	VP_ASSERT (!(viol & V_ENQ_ALLF), "C02/C06: whoever takes the queue spinlock to add a waiter clears MU_ALL_FALSE (the new waiter has not been examined; a reader's release would skip its wake-up)");
+	VP_ASSERT (!(viol & V_REL_NOWAKE), "C02/C06: a release that leaves the mutex free while threads are queued and no waker is designated takes the wake-up path (unless MU_ALL_FALSE licenses a reader or nsync_mu_unlock_without_wakeup to skip it)");
 	VP_ASSERT (!(viol & V_LONG_L1), "C14: a waiter woken LONG_WAIT_THRESHOLD times sets MU_LONG_WAIT when it goes back to sleep");
 	VP_ASSERT (!(viol & V_QUEUED), "C03: a queued waiter re-acquires only after observing its wake-up with an acquire load, or after dequeuing itself");
 	VP_ASSERT (!(viol & V_H4), "C02: MU_WAITING is not cleared while waiters remain queued (nobody sleeps on a mutex that looks uncontended)");
